@@ -582,6 +582,7 @@ func runWorkerSegments(p *Prop, bin, tier string, seed uint64, dir string, k int
 		stalled := false
 		lastSize := int64(-1)
 		lastChange := time.Now()
+		cpuAtChange := procCPUSeconds(cmd.Process.Pid)
 	loop:
 		for {
 			select {
@@ -589,10 +590,15 @@ func runWorkerSegments(p *Prop, bin, tier string, seed uint64, dir string, k int
 				break loop
 			case <-time.After(2 * time.Second):
 				if st, err := os.Stat(base + ".journal"); err == nil {
+					// The watchdog counts the worker's own CPU seconds since the last journal line, not wall
+					// time: on a loaded machine a slow case must not look like a hang. A worker that neither
+					// progresses nor burns CPU (deadlock, blocked) is caught by wall time after 3x the limit.
+					cpu := procCPUSeconds(cmd.Process.Pid)
 					if st.Size() != lastSize {
 						lastSize = st.Size()
 						lastChange = time.Now()
-					} else if time.Since(lastChange) > time.Duration(stall)*time.Second {
+						cpuAtChange = cpu
+					} else if cpu-cpuAtChange > float64(stall) || time.Since(lastChange) > 3*time.Duration(stall)*time.Second {
 						stalled = true
 						cmd.Process.Signal(syscall.SIGQUIT) // goroutine dump into .err: names the function that does not return
 						select {
@@ -646,6 +652,26 @@ func runWorkerSegments(p *Prop, bin, tier string, seed uint64, dir string, k int
 		mine = mine[pos+1:]
 	}
 	return res
+}
+
+// procCPUSeconds returns user+system CPU seconds consumed so far by the process (0 if unknown).
+func procCPUSeconds(pid int) float64 {
+	b, err := os.ReadFile("/proc/" + strconv.Itoa(pid) + "/stat")
+	if err != nil {
+		return 0
+	}
+	t := string(b)
+	k := strings.LastIndex(t, ")") // the command name may contain spaces
+	if k < 0 {
+		return 0
+	}
+	f := strings.Fields(t[k+1:])
+	if len(f) < 13 {
+		return 0
+	}
+	ut, _ := strconv.ParseFloat(f[11], 64) // utime  (field 14)
+	st, _ := strconv.ParseFloat(f[12], 64) // stime  (field 15)
+	return (ut + st) / 100
 }
 
 // stallStack returns the coregex frames of the goroutine that was running when the watchdog sent SIGQUIT.
